@@ -256,6 +256,15 @@ Definition remove_defaults (o : oracle) (defaults : list (ustring * value)) (n :
   | _ => Err (EPy PyOther)
   end.
 
+(* introspection.defaulted_attributes: parameters that have a default, with the class's
+   _yatiml_defaults overriding the signature's value; entries of _yatiml_defaults naming anything
+   else are ignored *)
+Definition defaulted_attributes (params : list (ustring * option value)) (overrides : list (ustring * value))
+  : list (ustring * value) :=
+  flat_map (fun p => match snd p with
+                     | Some d => [(fst p, match uassoc (fst p) overrides with Some o => o | None => d end)]
+                     | None => [] end) params.
+
 (* ---- the four structural transforms (validate first, then rebuild) ---- *)
 Definition replace_attr (a : ustring) (v : node) (n : node) : node :=
   match n with Map t ps m => Map t (set_attr_ps a v ps) m | _ => n end.
